@@ -80,6 +80,17 @@ def configs(tier):
     for c in [c for c in out if len(c['times']) <= 2 and c['sd'] and c['stop'] is not None and c['fail'] is None]:
         for late in (0, 1, 2):
             out.append(dict(c, late=late))
+    # ... and a put that arrives a few loop iterations after the stop request (it may be fetched
+    # from the queue together with the stop marker)
+    for c in [c for c in out if len(c['times']) == 1 and c['sd'] and c['stop'] is not None and c['fail'] is None
+              and c.get('late') is None and c['durs'] == [1]]:
+        for it in range(0, 12):
+            out.append(dict(c, late=0, late_iters=it))
+            out.append(dict(c, after_abort=it))     # counted from the stop request itself
+    # cancel mode: the cancelled coroutine needs a tick for its own clean-up
+    for c in [c for c in out if c['mode'] == 'cancel' and not c['guard'] and c.get('late') is None
+              and len(c['times']) >= 2 and c['fail'] is None]:
+        out.append(dict(c, slowcancel=1))
     # a second start-mode block that is still busy (for 12 s more) when the circuit stops: the
     # block under test has a stop_timeout that just covers its own work
     for c in [c for c in out if c['mode'] == 'start' and len(c['times']) <= 2 and c['stop'] is not None
@@ -225,6 +236,8 @@ def one_exec(cfg, chooser):
             try:
                 await asyncio.sleep(d)
             except asyncio.CancelledError:
+                if cfg.get('slowcancel'):
+                    await asyncio.sleep(1)      # clean-up of the cancelled run takes a tick
                 clog.append((now(), 'cancelled', value, blk.output))
                 raise
             clog.append((now(), 'end', value, blk.output))
@@ -247,11 +260,20 @@ def one_exec(cfg, chooser):
             on_cancel=edzed.Event(probe, 'cancel'), on_output=edzed.Event(probe, 'output'), **kw)
         holder['blk'] = blk
         ext = edzed.ExtEvent(blk, 'put')
+        def late_put(_b, n=[cfg.get('late_iters', 0)]):
+            # after the given number of further loop iterations
+            if n[0] > 0:
+                n[0] -= 1
+                loop.call_soon(late_put, _b)
+                return
+            try:
+                blk.event('put', value='LATE', idx='LATE', source='late')
+            except Exception as err:    # pylint: disable=broad-except
+                obs['errors'].append(('late-put', repr(err)))
         if cfg.get('late') is not None:
             lblock_class(astop=True)('helper', log=[], cfg={
                 'init_regular': ('set', 0),
-                'astop': (cfg['late'], ('call', lambda b: blk.event(
-                    'put', value='LATE', idx='LATE', source='late')))}, stop_timeout=1000)
+                'astop': (cfg['late'], ('call', late_put))}, stop_timeout=1000)
 
         async def driver():
             task = asyncio.create_task(sim.circuit.run_forever())
@@ -273,6 +295,17 @@ def one_exec(cfg, chooser):
                 futs.append(loop.call_at_us(t * TICK, put, i))
             end = horizon if stop_at is None else stop_at
             stopfut = loop.call_at_us(end * TICK, sim.circuit.abort, asyncio.CancelledError('shutdown'))
+            if cfg.get('after_abort') is not None:
+                def chain(n=[cfg['after_abort']]):
+                    if n[0] > 0:
+                        n[0] -= 1
+                        loop.call_soon(chain)
+                        return
+                    try:
+                        blk.event('put', value='LATE', idx='LATE', source='late')
+                    except Exception as err:    # pylint: disable=broad-except
+                        obs['errors'].append(('late-put', repr(err)))
+                futs.append(loop.call_at_us(end * TICK, chain))
             await stopfut
             err = await stop(sim.circuit)
             if err is not None and not isinstance(err, asyncio.CancelledError):
@@ -359,6 +392,17 @@ def judge(cfg, obs):
     # the put that arrived after stop(): the statement promises nothing about it, except that
     # the stop_data run is the last one
     late_run = runs.pop('LATE', None)
+    if (mode == 'start' and stop_at is not None and 't_stopped' in obs
+            and not cfg.get('twin') and cfg.get('late') is None):     # (no other block delays the stop)
+        # the stop lasts as long as the pending work (+ the stop_data run), not until stop_timeout
+        work = [r.get('end', r.get('cancelled', 0)) for v, r in runs.items() if v != 'STOP']
+        if late_run is not None:
+            work.append(late_run.get('end', late_run.get('cancelled', 0)))
+        need = max(work + [stop_at]) + (1 if sd else 0)
+        if obs['t_stopped'] > need + 1:
+            errs.append(('stop-takes-too-long', f"stop requested at {stop_at}, the last run ended at "
+                         f"{max(work + [stop_at])}, but the circuit stopped only at {obs['t_stopped']} "
+                         f"(stop_timeout 1000)"))
     if sd and 'end' not in runs.get('STOP', {}):
         errs.append(('stop-data-not-processed',
                      f"the stop_data run did not take place or did not complete: {runs.get('STOP')!r}; "
